@@ -34,13 +34,18 @@ META = {
 CFGS = ['off', 'debug', 'trace', 'env']
 INT_T = ['f2', 'fv', 'fm', 'fa', 'ms', 'mv', 'ia', 'iv']
 PA_T = ['fp', 'ip']
-SHAPES = {'ow': '', 'ox': 'I', 'oz': 'I', 'it': 'I', 'f2': 'IS', 'fv': 'V', 'fm': 'SV', 'fp': 'PA', 'fa': 'A', 'ms': 'IS', 'mv': 'SV', 'ia': 'IS', 'iv': 'SV', 'ip': 'PA'}
+SHAPES = {'f0': 'I', 'rs': 'IS', 'ow': '', 'ox': 'I', 'oz': 'I', 'it': 'I', 'f2': 'IS', 'fv': 'V', 'fm': 'SV', 'fp': 'PA', 'fa': 'A', 'ms': 'IS', 'mv': 'SV', 'ia': 'IS', 'iv': 'SV', 'ip': 'PA'}
 WHEN_OK = ['f2', 'ms', 'ia', 'fv']          # When(..) only where C04's finding F6 (variadic expansion of fixed args) cannot interfere
 INTS = ['-3', '-1', '0', '1', '2', '5', '7', '42', '1000000']
 STRS = ['s', 'sa', 'sab', 'sxyz', 's0']
 NODES = ['nil', 'n0', 'n1', 'n2', 'n3']
 ANY_SAFE = ['nil', 'i5', 'i-2', 'i0', 'tab', 't', 'pn0', 'pn1', 'pn2', 'pn3', 'tn'] + [f'z{k}' for k in range(16)]
 ANY_CYC = ['z20', 'z21', 'z22', 'z23']
+USER_METHOD = ['z16', 'z17']          # String() / Error() with an observable effect
+USER_RE = re.compile(r'\bz1[67]\b')
+F27_KEY = 'F27-c19-fmt-runs-user-methods'
+# how a process in unbounded recursion dies: stack limit, or the collector tripping over the runaway stack first
+DEATH_BY_RECURSION = ('CRASH:stack-overflow', 'CRASH:fatal')
 CYC_RE = re.compile(r'\bz2[0-3]\b')
 NOHOME = '@nohome '
 F13_KEY = 'F13-fmt-slice-map-cycle-debug-only'
@@ -108,33 +113,34 @@ def gen_cb(rng, tgt):
 
 
 def gen_scenario(rng, tgt, malformed=False, cyc=False):
-    """One scenario body (ops joined by ' ; ').  After an Apply no Return/When/Returns until the next Reset
-    (C12's finding F7 decides what that does); When only on targets in WHEN_OK."""
+    """One scenario body (ops joined by ' ; '): Apply callbacks and Return/When/Returns stubs mixed freely on one mocker
+    (Apply discards an earlier When, a later Return builds a new one), calls in between, Reset, switches flipped in the middle.
+    When only on targets in WHEN_OK."""
     ops = []
     if rng.chance(1, 4):
         ops.append(gen_call(rng, tgt, cyc=cyc))
     for _phase in range(rng.choice([1, 1, 2, 3])):
         pats = []
-        if rng.chance(1, 2):
-            for _ in range(rng.choice([1, 1, 2])):
-                ops.append('apply ' + gen_cb(rng, tgt))
-                for _ in range(rng.choice([1, 2, 3])):
-                    ops.append(gen_call(rng, tgt, cyc=cyc))
-        else:
-            for _ in range(rng.choice([1, 2, 3])):
-                kinds = ['ret', 'rets'] + (['when', 'when'] if tgt in WHEN_OK else [])
-                k = rng.choice(kinds)
-                bad = malformed and rng.chance(1, 2)
-                if k == 'ret':
-                    ops.append('ret ' + gen_result(rng, tgt, cyc and rng.chance(1, 2), bad))
-                elif k == 'rets':
-                    ops.append('rets ' + '|'.join(gen_result(rng, tgt, False, bad and i == 1) for i in range(rng.choice([1, 2, 3, 4]))))
+        for _ in range(rng.choice([1, 2, 2, 3, 4])):
+            kinds = ['apply', 'apply', 'apply', 'ret', 'rets'] + (['when', 'when'] if tgt in WHEN_OK else [])
+            k = rng.choice(kinds)
+            bad = malformed and rng.chance(1, 2)
+            if k == 'apply':
+                if malformed and rng.chance(1, 3):
+                    ops.append('applybad')            # Apply(42)
                 else:
-                    p = gen_pats(rng, tgt, bad)
-                    pats.append(p)
-                    ops.append(f'when {p} {gen_result(rng, tgt, False, malformed and rng.chance(1, 3))}')
-                for _ in range(rng.choice([0, 1, 2, 4])):
-                    ops.append(gen_call(rng, tgt, pats, cyc=cyc))
+                    ops.append('apply ' + gen_cb(rng, tgt))
+                    pats = []
+            elif k == 'ret':
+                ops.append('ret ' + gen_result(rng, tgt, cyc and rng.chance(1, 2), bad))
+            elif k == 'rets':
+                ops.append('rets ' + '|'.join(gen_result(rng, tgt, False, bad and i == 1) for i in range(rng.choice([1, 2, 3, 4]))))
+            else:
+                p = gen_pats(rng, tgt, bad)
+                pats.append(p)
+                ops.append(f'when {p} {gen_result(rng, tgt, False, malformed and rng.chance(1, 3))}')
+            for _ in range(rng.choice([0, 1, 2, 3])):
+                ops.append(gen_call(rng, tgt, pats, cyc=cyc))
         ops.append('cancel')
         if rng.chance(1, 3):
             ops.append(gen_call(rng, tgt, cyc=cyc))
@@ -142,6 +148,30 @@ def gen_scenario(rng, tgt, malformed=False, cyc=False):
         for _ in range(rng.choice([1, 2, 3])):
             ops.insert(rng.below(len(ops) + 1), 'dbg ' + rng.choice(['on', 'off', 'tron', 'troff']))
     return f'{tgt} ' + ' ; '.join(ops)
+
+
+def gen_void(rng):
+    """a function without results (f0): callbacks, Return(), calls"""
+    ops = []
+    for _ in range(rng.choice([1, 2])):
+        for _ in range(rng.choice([1, 2, 3])):
+            ops.append(rng.choice(['apply sum%d' % rng.below(5), 'apply sum%d' % rng.below(5), 'apply pan%d' % rng.below(3), 'apply nilp', 'ret -', 'ret -']))
+            ops += ['call ' + rng.choice(INTS) for _ in range(rng.choice([1, 2]))]
+        ops.append('cancel')
+    if rng.chance(1, 3):
+        ops.insert(rng.below(len(ops) + 1), 'dbg ' + rng.choice(['on', 'off', 'tron', 'troff']))
+    return 'f0 ' + ' ; '.join(ops)
+
+
+def gen_usermethod(rng):
+    """values whose String()/Error() method records an event (finding F27): as arguments and as results"""
+    t = rng.choice(['fa', 'fp', 'ip', 'fp'])
+    v = lambda: rng.choice(USER_METHOD)
+    if t == 'fa':
+        ops = [rng.choice(['apply sum1', 'ret 5']), 'call ' + v(), 'call ' + v(), 'cancel']
+    else:
+        ops = [rng.choice(['apply echo', 'apply retn', f'ret n0,{v()}', f'ret nil,{v()}']), f'call {rng.choice(NODES)},{v()}', f'call nil,{rng.choice(ANY_SAFE)}', 'cancel']
+    return f'{t} ' + ' ; '.join(ops)
 
 
 SV_TOKS = ['I:5', 'I:-3', 'S:sab', 'S:s', 'P:nil', 'P:n0', 'A:nil', 'A:i5', 'A:tab', 'A:tn', 'E:nil', 'E:sx', 'V:1.2', 'V:-', 'V:7', 'M:', 'Q:nil', 'Q:x']
@@ -154,6 +184,10 @@ def gen_streams(tier, rng, scale=1):
     tg = INT_T + PA_T + ['fa', 'fp', 'ip', 'fv', 'mv', 'iv']      # weight the value-heavy and variadic targets
     for i in range(n):
         bodies.append(gen_scenario(r, r.choice(tg), malformed=(i % 10 == 9)))
+    r = rng.fork('void')
+    bodies += [gen_void(r) for _ in range((40 if tier == 'quick' else 800) * scale)]
+    r = rng.fork('usermethod')
+    bodies += [gen_usermethod(r) for _ in range((12 if tier == 'quick' else 200) * scale)]
     r = rng.fork('nohome')
     hb = list(NOHOME_CORPUS)
     for i in range((120 if tier == 'quick' else 1500) * scale):
@@ -186,7 +220,7 @@ def gen_streams(tier, rng, scale=1):
         if r.chance(1, 3):
             o.insert(r.below(len(o)), 'dbg ' + r.choice(['on', 'off', 'tron', 'troff']))
         risky.append(t + ' ' + ' ; '.join(o))
-    risky += ['lib ' + f for f in LIB_FUNCS + TIME_NOW]
+    risky += ['lib ' + f for f in LIB_FUNCS + TIME_NOW + LIB_MORE]
     r = rng.fork('it')
     for i in range((3 if tier == 'quick' else 12) * scale):
         o = []
@@ -207,7 +241,13 @@ LIB_FUNCS = ['fmt.Print', 'fmt.Println', 'fmt.Fprint', 'fmt.Sprint', 'fmt.Sprint
 
 TIME_NOW = ['time.Now/func', 'time.Now/name', 'time.Now/ret', 'time.Now/as']   # every handle kind; debug.go:14 must recognise all of them
 
+LIB_MORE = ['byname.func', 'byname.method', 'two.nested', 'two.timenow', 'sites%d' % 600]
+
 CORPUS_RISKY = [
+    'rs apply sum1 ; call 1,s ; cancel',               # F27: the receiver's String() calls the mocked method
+    'rs ret 5 ; call 2,sa ; cancel',
+    'rs dbg off ; apply sum1 ; call 1,s ; cancel',      # applied while closed: never wrapped
+
     'ow call - ; apply org1000 ; call - ; cancel ; call -',            # Origin placeholder of a leaf whose first instructions are RIP-relative
     'ox apply org5 ; call 3 ; call -1 ; cancel ; call 2',
     'oz call 1 ; apply org7 ; call 42 ; apply sum1 ; call 2 ; cancel',
@@ -244,15 +284,21 @@ def erase_T(body, T):
     if T is None or not T.startswith('T='):
         return None
     ops = body[len(NOHOME) if body.startswith(NOHOME) else 0:].split(' ', 1)[1].split(' ; ')
+    T, _, ptags = T.partition(' P=')
     toks = T[2:].split('|')
     if len(toks) != len(ops):
         return None
-    return 'T=' + '|'.join(t for o, t in zip(ops, toks) if not o.startswith('dbg '))
+    return 'T=' + '|'.join(t for o, t in zip(ops, toks) if not o.startswith('dbg ')) + ' P=' + ptags
 
 
 def corpus():
     """hand-written scenarios that run first: one per mechanism of the property's record"""
     return [
+        'f2 ret 9 ; call 1,s ; applybad ; call 1,s ; apply sum1 ; call 1,s ; ret 4 ; call 1,s ; cancel',
+        'ia apply sum1 ; applybad ; call 1,sa ; cancel',
+        'f0 call 3 ; apply sum1 ; call 3 ; ret - ; call 4 ; apply pan1 ; call 5 ; cancel ; call 6',
+        'fa apply sum1 ; call z16 ; call z17 ; cancel',
+        'fp ret n0,z17 ; call nil,z16 ; cancel',
         'f2 call 1,sab ; apply sum5 ; call 1,sab ; cancel ; ret 9 ; call 2,s ; cancel ; call 1,s',
         'fv ret 7 ; call 1,2,3 ; call - ; when 1,2 8 ; call 1,2 ; call 1',
         'fv apply sum1 ; call - ; call 1 ; call 1,2,3,5,7',
@@ -273,8 +319,18 @@ def corpus():
 
 # ------------------------------------------------------------------ running
 
+NSITES = 600
+
+
 def build_probe():
-    b, err = C.overlay_build('c19', '', {'zz_verif_c19_test.go': os.path.join(C.HARNESS, 'c19', 'probe_test.go')}, C.helper_pkgs())
+    # generated: NSITES one-line call sites of one mockable function (distinct source positions for the logger's caller lookup)
+    gen = os.path.join(C.BUILD, 'c19_sites_gen_test.go')
+    src = 'package mocker\n\n// GENERATED by checks/C19.py\nvar c19Sites = []func() string{\n' + \
+          ''.join('\tfunc() string { return c19LibTarget("x") },\n' for _ in range(NSITES)) + '}\n'
+    if not os.path.exists(gen) or open(gen).read() != src:
+        open(gen, 'w').write(src)
+    b, err = C.overlay_build('c19', '', {'zz_verif_c19_test.go': os.path.join(C.HARNESS, 'c19', 'probe_test.go'),
+                                         'zz_verif_c19_sites_test.go': gen}, C.helper_pkgs())
     if b is None:
         raise C.Infra('probe c19 does not build against the current tree:\n' + err[-3000:])
     return b
@@ -292,19 +348,21 @@ def crash_class(text):
     return 'exit'
 
 
-def run_cfg(binary, cfg, ops_path, n, idxs, tag, maxstack=None, timeout=600, nohome=False):
+def run_cfg(binary, cfg, ops_path, n, idxs, tag, maxstack=None, timeout=900, nohome=False):
     """Run the probe for one configuration over lines `idxs` of the ops file, restarting after a crash.
     Returns {line index: observation}; a line that killed the process gets 'CRASH:<class>'."""
     res = {}
     start = 0
+    retried_timeout = False
     todo = sorted(idxs)
-    for _ in range(len(todo) + 1):
+    for _ in range(len(todo) + 2):
         outp = os.path.join(C.BUILD, f'{tag}.{cfg}.impl')
         if os.path.exists(outp):
             os.remove(outp)
         env = C.goenv({'VERIF_OPS': ops_path, 'VERIF_OUT': outp, 'VERIF_SEED': str(C.seed()), 'VERIF_C19_CFG': cfg,
                        'VERIF_C19_LOG': os.path.join(C.BUILD, f'{tag}.{cfg}.log'), 'VERIF_START': str(start)})
-        env.pop('GOOM_DEBUG', None)
+        for k in [k for k in env if k.startswith('GOOM_')]:     # no goom knob leaks in from the caller's environment
+            env.pop(k)
         if cfg == 'env':
             env['GOOM_DEBUG'] = '1'
         if nohome:
@@ -329,7 +387,12 @@ def run_cfg(binary, cfg, ops_path, n, idxs, tag, maxstack=None, timeout=600, noh
         if not missing:
             raise C.Infra(f'probe ({cfg}) failed rc={rc} after answering every line:\n{text[-1500:]}')
         bad = missing[0]
-        res[bad] = 'CRASH:' + crash_class(text)
+        cls = crash_class(text)
+        if cls == 'timeout' and not retried_timeout:
+            retried_timeout = True        # a loaded machine: run again from the same line ONCE before believing it
+            start = bad
+            continue
+        res[bad] = 'CRASH:' + cls
         start = bad + 1
         if not [i for i in todo if i >= start]:
             return res
@@ -357,6 +420,9 @@ def execute(bodies, risky, sv, tag='c19'):
     ops_path = os.path.join(C.BUILD, f'{tag}.ops')
     open(ops_path, 'w').write('\n'.join(ops) + '\n')
     binary = build_probe()
+    lf = os.path.join(C.BUILD, 'home', 'logs', 'goom-mocker.log')      # goom appends to it for ever
+    if os.path.exists(lf) and os.path.getsize(lf) > (64 << 20):
+        open(lf, 'w').close()
     impl = [None] * len(ops)
     errs = []
 
@@ -385,7 +451,7 @@ def execute(bodies, risky, sv, tag='c19'):
             for idx, cfg in chunk:
                 one = os.path.join(C.BUILD, f'{tag}.risky{k}.ops')
                 open(one, 'w').write('\n' * idx + ops[idx] + '\n')
-                r = run_cfg(binary, cfg, one, len(ops), [idx], f'{tag}.risky{k}', maxstack=64 << 20, timeout=120)
+                r = run_cfg(binary, cfg, one, len(ops), [idx], f'{tag}.risky{k}', maxstack=64 << 20, timeout=300)
                 impl[idx] = r.get(idx)
         except Exception as e:  # noqa: BLE001
             errs.append(e)
@@ -413,20 +479,35 @@ def oracle(body, g, impl):
     alive = {T[c] for c in CFGS if c not in crashed}
     if not crashed and len(alive) == 1:
         return None
+    # finding F27, narrowly: a value with a recording String()/Error() is passed and the transcripts differ ONLY in those records
+    if not crashed and USER_RE.search(body) and len({strip_user(t) for t in alive}) == 1:
+        return (f'scenario `{body}`: ' + '; '.join(f'{c}: {T[c]}' for c in CFGS), F27_KEY)
     # finding F13, narrowly: the scenario carries a slice/map cycle token, every death is a stack overflow, it happens only where
     # debug logging can be open (a debug/trace/env process, or after an explicit `dbg on|tron`), and the survivors agree
     key = None
     opens = ' dbg on' in body or ' dbg tron' in body
-    if crashed and CYC_RE.search(body) and len(alive) <= 1 and all(T[c] == 'CRASH:stack-overflow' and (c != 'off' or opens) for c in crashed):
+    if crashed and CYC_RE.search(body) and len(alive) <= 1 and all(T[c] in DEATH_BY_RECURSION and (c != 'off' or opens) for c in crashed):
         key = F13_KEY
-    if crashed and body.split()[0] == 'it' and len(alive) <= 1 and all(T[c] == 'CRASH:stack-overflow' and (c != 'off' or opens) for c in crashed):
+    if crashed and body.split()[0] == 'rs' and len(alive) <= 1 and all(T[c] in DEATH_BY_RECURSION and (c != 'off' or opens) for c in crashed):
+        key = F27_KEY      # … or the receiver's String() re-enters the mocked method
+    if crashed and body.split()[0] == 'it' and len(alive) <= 1 and all(T[c] in DEATH_BY_RECURSION and (c != 'off' or opens) for c in crashed):
         key = F14_KEY
     what = f'scenario `{body}`: ' + '; '.join(f'{c}: {T[c]}' for c in CFGS)
     return (what, key)
 
 
+def strip_user(t):
+    return t.replace('!str', '').replace('!err', '')
+
+
+P_RE = re.compile(r' P=\S+')
+
+
 def norm_for_model(impl_obs, model_obs):
-    """A process that died is compared with the model's prediction of death."""
+    """A process that died is compared with the model's prediction of death.  The panic-value kinds (P=) are an
+    observation of the implementation only (the model's panics are classes)."""
+    if impl_obs is not None:
+        impl_obs = P_RE.sub('', impl_obs, count=1)
     if impl_obs is not None and impl_obs.startswith('CRASH:') and model_obs is not None and '->CRASH' in model_obs:
         return True
     return impl_obs == model_obs
@@ -451,7 +532,8 @@ def assess(ops, impl, model, groups, out, report=True):
         for cfg in CFGS:
             e, tw = erase_T(body, T_of(impl[g[cfg]])), T_of(impl[byb[twin][cfg]])
             if e is not None and tw is not None and tw.startswith('T=') and e != tw:
-                bad.append((body, f'scenario `{body}` in configuration {cfg}: with its logging switches {e} ; with the switch operations removed {tw}', None))
+                k = F27_KEY if USER_RE.search(body) and strip_user(e) == strip_user(tw) else None
+                bad.append((body, f'scenario `{body}` in configuration {cfg}: with its logging switches {e} ; with the switch operations removed {tw}', k))
                 break
     bad.sort(key=lambda b: b[2] is not None)
     for body, what, key in (bad[:4] + [b for b in bad[4:] if b[2] is not None][:2]) if report else []:
@@ -514,6 +596,11 @@ def run(tier):
     nontrivial = len({(body.split()[0], T_of(impl[g['debug']])) for body, g, _ in groups
                       if impl[g['debug']] and ' L=' in impl[g['debug']] and (int(impl[g['debug']].rsplit('L=', 1)[1]) > 0 or ' W=-' not in impl[g['debug']])})
     crashes = sum(1 for o in impl if o and o.startswith('CRASH'))
+    # floors: a lane that silently ran nothing is a machinery error, not a pass
+    lanes = {'main': sum(1 for _, g, rk in groups if rk is False and impl[g['off']]), 'unopenable-log': sum(1 for _, g, rk in groups if rk == 'h' and impl[g['off']]),
+             'isolated': sum(1 for _, g, rk in groups if rk is True and impl[g['off']]), 'sprintv': sum(1 for i, o in enumerate(ops) if o.startswith('c19.sv') and impl[i])}
+    if min(lanes.values()) == 0 or wrapped_runs == 0 or logged == 0:
+        raise C.Infra(f'a lane produced nothing (lanes={lanes}, wrapper runs={wrapped_runs}, logged lines={logged}): the probe lost its configuration switch')
     out.coverage = {
         'obligations': proof['obligations'], 'discharged': proof['discharged'],
         'checker_cmd': ' ; '.join(proof['cmds']),
